@@ -80,7 +80,7 @@ def run_history(cls, hist, text):
     try:
         bad = []      # (variant index, clause, detail)
         last = None
-        for op in hist:
+        for step, op in enumerate(hist):
             last = op
             want = do(m, op, True)
             wpos = m.tell()
@@ -112,7 +112,7 @@ def run_history(cls, hist, text):
             return None, m
         rolled = [bool(getattr(fs[i], '_rolled', i == 0)) for i, _, _ in bad]
         clause, detail = bad[0][1], bad[0][2]
-        return (clause, last, 'max_size=%r: %s' % (sizes[bad[0][0]], detail), any(rolled), not all(rolled), len(bad)), m
+        return (clause, last, 'max_size=%r: %s' % (sizes[bad[0][0]], detail), any(rolled), not all(rolled), len(bad), step), m
     finally:
         for f in fs:
             try:
@@ -137,7 +137,8 @@ def lone_cr_free(hist):
 
 
 def report(H, cls, hist, text, f):
-    clause, op, detail, rolled_fail, unrolled_fail, nbad = f
+    clause, op, detail, rolled_fail, unrolled_fail, nbad, step = f
+    hist = hist[:step + 1]          # the failing operation is the last one of the reported history
     site = '%s.%s' % (cls.__name__, {'next': '__next__', 'list': '__iter__', 'len': '__len__'}.get(op[0], op[0]))
     if op[0] in ('next', 'list'):
         # iteration is built on readline: when readline fails the same clause in the same state, that is the site
